@@ -16,11 +16,16 @@ PRV_VERSIONS = {0x0488ADE4, 0x049D7878, 0x04B2430C, 0x04358394, 0x044A4E28, 0x04
 
 def literal_ops(lit):
     w = "seedb:%s:%s" % (hx(bytes(range(16, 48))), "01"[lit % 2])
-    if lit < 2 ** 31:
+    if 30 < lit <= 5000:
+        # the command line itself with --paranoia and a report of lit + 1 rows
+        from .c20 import enc, SEED
+        yield "cli absent %s %s" % (hx(bytes(range(40))), enc(["--paranoia", "--interval", "0", str(lit + 1),
+                                                               "from-bip39-seed", SEED]))
+    elif lit < 2 ** 31:
         yield "paranoia %s %d 0 1" % (w, lit)
 
 
-LITERAL_BUDGET = 16
+LITERAL_BUDGET = 24
 
 
 def cases(rng, tier):
@@ -99,6 +104,15 @@ def oracle(line, out):
         if m:
             return "second filtered report: " + m
         return None
+    if tok[0] == "cli":
+        v = ok_val(out)
+        if v is None or not v.startswith("emit "):
+            return None
+        from .c20 import SEED
+        argv = [unstr(x) for x in tok[3].split(",")]
+        a, b = int(argv[argv.index("--interval") + 1]), int(argv[argv.index("--interval") + 2])
+        rep_s = v.split(" ", 2)[2]
+        return oracle("paranoia seedb:%s:0 0 %d %d" % (SEED, a, b), "ok " + rep_s)
     if tok[0] == "paper_text" and tok[3].startswith("p:"):
         v = ok_val(out)
         if v is None:
